@@ -103,6 +103,13 @@ func (f *File) Write(p []byte) (int, error) {
 	return f.wr.Write(p)
 }
 
+// Discard closes the file without finalising the entry: its header stays as
+// it is, so an entry that was being written never becomes valid.
+func (f *File) Discard() error {
+	f.rd.Close()
+	return f.f.Close()
+}
+
 // Close the files and write the body hash sum to the header.
 func (f *File) Close() error {
 	defer f.f.Close()
